@@ -1,6 +1,10 @@
-"""C03 — engine property (see DESIGN.md section 6): theorems over coq/model/Engine.v + commit-level correspondence."""
-from harness import engine_corr
-from harness.lib import RunResult
+"""C03 — a stage never runs before its dependencies allow it: readiness evaluators characterised by iff-theorems
+(any upstream list), the StartStage start guard proved over the engine model; the Readiness model is tied to
+dag/readiness.py by an exhaustive differential, the engine model by the commit-level correspondence."""
+import itertools
+
+from harness import engine_corr, lib
+from harness.lib import RunResult, Violation, cq_bool, cq_list, cq_opt
 
 PID = "C03"
 COQ_TARGETS = ["props/C03.vo"]
@@ -11,12 +15,101 @@ TRUSTED_BASE = ["SQLite: a write transaction is atomic and isolated; a crash bef
 ASSUMPTIONS = ["one handler runs at a time (sequential engine model); races are the subject of C04/C07/C11/C18",
                "delayed messages are delivered only when no undelayed message is pending (wall-clock realism of the schedule generator)"]
 
+PHASES = {"READY": "P_READY", "NOT_READY": "P_NOT_READY", "SKIP": "P_SKIP", "UNDEFINED": "P_UNDEFINED"}
+
+
+def readiness_cases(ctx):
+    lib.ensure_repo_on_path()
+    from stabilize.dag.readiness import evaluate_readiness
+    from stabilize.models.stage import JoinType, StageExecution
+    from stabilize.models.status import ACTIVE_STATUSES, WorkflowStatus
+    sts = list(WorkflowStatus)
+    thorough = ctx.tier == "thorough"
+    configs = [("AND", 0, False, None), ("MULTI_MERGE", 0, False, None),
+               ("DISCRIMINATOR", 0, False, None), ("DISCRIMINATOR", 0, True, None)]
+    for thr in range(0, 5):
+        for fired in (False, True):
+            configs.append(("N_OF_M", thr, fired, None))
+    for act in (None, [], [0], [1], [2], [0, 1], [0, 2], [1, 2], [0, 1, 2]):
+        configs.append(("OR", 0, False, act))
+    ups_lists = [()]
+    for n in (1, 2):
+        ups_lists += list(itertools.product(range(len(sts)), repeat=n))
+    tri = list(itertools.product(range(len(sts)), repeat=3))
+    ups_lists += tri if thorough else ctx.rng.sample(tri, 260)
+    for n in (4, 5, 6):
+        ups_lists += [tuple(ctx.rng.randrange(len(sts)) for _ in range(n)) for _ in range(150 if thorough else 40)]
+    cases, raw = [], []
+    dist = {}
+    for (join, thr, fired, act) in configs:
+        for ups in ups_lists:
+            for bypass in ((False, True) if len(ups) <= 1 else (False,)):
+                stage = StageExecution(id="S", ref_id="s", join_type=JoinType[join], join_threshold=thr)
+                if fired:
+                    stage.context["_join_fired"] = True
+                if act is not None:
+                    stage.context["_activated_branches"] = [f"u{i}" for i in act]
+                upstream = [StageExecution(id=f"id{i}", ref_id=f"u{i}", status=sts[k]) for i, k in enumerate(ups)]
+                r = evaluate_readiness(stage, upstream, jump_bypass=bypass)
+                waits = bool(r.active_upstream_ids) and any(u.status in ACTIVE_STATUSES for u in upstream)
+                failed = [int(x[2:]) for x in r.failed_upstream_ids]
+                active = [int(x[2:]) for x in r.active_upstream_ids]
+                cases.append("(%s, %d%%Z, %s, %s, %s, %s, (%s, %s, %s, %s))" % (
+                    "J_" + join, thr, cq_bool(fired), cq_opt(act, lambda a: cq_list([f"{x}%nat" for x in a])),
+                    cq_list([f"({i}%nat, {sts[k].name})" for i, k in enumerate(ups)]), cq_bool(bypass),
+                    PHASES[r.phase.value], cq_list([f"{x}%nat" for x in failed]), cq_list([f"{x}%nat" for x in active]), cq_bool(waits)))
+                raw.append({"join": join, "threshold": thr, "fired": fired, "activated": act, "bypass": bypass,
+                            "upstream": [sts[k].name for k in ups], "impl": {"phase": r.phase.value, "failed": failed, "active": active, "waits": waits}})
+                dist[join] = dist.get(join, 0) + 1
+    return cases, raw, dist
+
+
+CHECK = ("fun c => match c with (j, thr, fired, act, ups, bypass, (ph, failed, active, waits)) => "
+         "let st := {| r_join := j; r_threshold := thr; r_fired := fired; r_activated := act |} in "
+         "let r := evaluate_readiness st ups bypass in "
+         "phase_eqb (rr_phase r) ph && list_eqb Nat.eqb (rr_failed r) failed && list_eqb Nat.eqb (rr_active r) active "
+         "&& Bool.eqb (start_stage_waits r ups) waits end")
+TYPE = "join_type * Z * bool * option (list nat) * list (nat * status) * bool * (phase * list nat * list nat * bool)"
+
 
 def run(ctx) -> RunResult:
     res = RunResult()
+    cases, raw, dist = readiness_cases(ctx)
+    fail, err = lib.coq_failing_indices("From Stab.model Require Import StatusM Readiness.", CHECK, TYPE, cases, "c03_ready", shard=600)
+    if err:
+        res.disagreements.append({"what": "Readiness model evaluation failed", "detail": err[:600]})
+    for i in fail[:10]:
+        res.disagreements.append({"what": "evaluate_readiness differs from coq/model/Readiness.v", "case": raw[i]})
+        # a concrete failing input for the property: READY verdict although the join condition is false, or the converse
+        if raw[i]["impl"]["phase"] == "READY" and not raw[i]["bypass"]:
+            res.violations.append(Violation(
+                what=f"evaluate_readiness says READY for a {raw[i]['join']} join with upstream statuses {raw[i]['upstream']} "
+                     f"(threshold {raw[i]['threshold']}, fired {raw[i]['fired']}, activated {raw[i]['activated']}) — the model's join condition does not hold",
+                signature=f"readiness:READY-early:{raw[i]['join']}", replay={"kind": "readiness", **raw[i]}))
+    res.evaluations = len(cases)
+    res.distinct_nontrivial = len({c for c in cases})
+    res.traces_validated = len(cases)
+    res.rule = ("readiness: every upstream status list of length <= 2 (and all / a sample of length 3, random 4..6) x 31 join "
+                "configurations (AND, MULTI_MERGE, DISCRIMINATOR fired/not, N_OF_M thresholds 0..4 fired/not, OR with every "
+                "activation subset), compared on (phase, failed ids, active ids, StartStage's wait decision); distinct = distinct case terms")
+    res.samples = raw[100:103]
+    res.distribution = {"readiness_by_join": dist}
     engine_corr.extend(ctx, res, PID)
     return res
 
 
 def replay(obj) -> bool:
+    r = obj["replay"]
+    if r.get("kind") == "readiness":
+        lib.ensure_repo_on_path()
+        from stabilize.dag.readiness import evaluate_readiness
+        from stabilize.models.stage import JoinType, StageExecution
+        from stabilize.models.status import WorkflowStatus
+        stage = StageExecution(id="S", ref_id="s", join_type=JoinType[r["join"]], join_threshold=r["threshold"])
+        if r["fired"]:
+            stage.context["_join_fired"] = True
+        if r["activated"] is not None:
+            stage.context["_activated_branches"] = [f"u{i}" for i in r["activated"]]
+        ups = [StageExecution(id=f"id{i}", ref_id=f"u{i}", status=WorkflowStatus[k]) for i, k in enumerate(r["upstream"])]
+        return evaluate_readiness(stage, ups, jump_bypass=r["bypass"]).phase.value != "READY"
     return engine_corr.replay(obj)
